@@ -275,3 +275,14 @@ def _simplex(rng, n, positive=False):
     for i, p in zip(idx, probs):
         out[i] = p
     return out
+
+
+
+def parent_phase(tier, seed, jobs, tmp, envf):
+    """thorough tier: the repository's own test-suite under the ambient 'rollout' monitor"""
+    if tier != "thorough":
+        return [], None
+    from mon.probe.ambient import run_ambient
+    rec = run_ambient({"rollout"}, tmp, envf)
+    rec["prop"] = PROP
+    return [rec], {"ambient_test_suite": rec["sample"]}
